@@ -44,7 +44,9 @@ CLAIMED = {
    "encoding for EVERY isize x (scalar values, negated bytes, errors otherwise); Explode yields the codec's decoding for EVERY byte string of "
    "length 3 and 4 (2^24 + 2^32 strings: all characters, truncated / overlong / surrogate / out-of-range forms, every ill-formed byte as its own "
    "negative number); the codec round-trips; hence `explode | implode` is the identity on those strings. Character-wise slicing "
-   "(skip_take_chars) follows an independent Unicode segmentation on every 3-byte string. Narrow: base64/URI/HTML codecs, regex offsets, "
+   "(skip_take_chars) follows an independent Unicode segmentation on every 3-byte string. The byte->character offset mapping behind every regex "
+   "result (regex::ByteChar::char_of_byte: match/scan/capture/splits/sub offsets) equals that segmentation for every 2-byte (quick) and 3-byte (thorough) "
+   "string and TWO consecutive queries with any offsets in any order (the decreasing order exercises the restart). Narrow: base64/URI/HTML codecs, the regex engine itself and Match.length, "
    "split/join, ascii_*case and every escaping formatter (@sh, @csv, @tsv, @json, @html, @uri) are outside the claim.",
    "Composition: implode works element by element (one push/extend per element), so per-element encoding + decoding + model round trip give the "
    "string identity; the direct round-trip harness (Vec growth in a loop) does not decide and is kept as an attempt. alloc::fmt::format stubbed."),
